@@ -74,6 +74,11 @@ def compare_views(ctx, site, tg, small, obj, tw, views, what):
     return True
 
 
+def full_key(sh):
+    """identifies an initial shape including its control net (several seeds give the same degrees / knots with different nets)"""
+    return core.json.dumps(sh, sort_keys=True)
+
+
 def hkey(hist):
     return core.json.dumps(hist, sort_keys=True)
 
@@ -134,13 +139,13 @@ THEOREMS = ["T_WellFormed", "P_ReadPure (readers and sampling changes never chan
 
 
 def run(ctx):
-    res = core.run_tlc("MC_C12", "MC_C12_%s.cfg" % ctx.tier, timeout=3400)
+    res = core.run_model(ctx, "MC_C12", 3400, thorough_seeds=(2, 3))
     core.tlc_must_pass(res, "MC_C12")
     ctx.add_tlc(res, "all interleavings of mutators and readers up to the depth bound")
     ctx.theorems = THEOREMS
     defs = {}
     for tag, cs in res.cases:
-        defs[(shape_key(cs["sh0"]), hkey(cs["hist"]))] = cs["obj"]
+        defs[(full_key(cs["sh0"]), hkey(cs["hist"]))] = cs["obj"]
     n = 0
     muts = {}
     for tag, cs in res.cases:
@@ -149,7 +154,7 @@ def run(ctx):
             continue          # a trailing read is subsumed by the final read of every view
         n += 1
         muts[last["a"]] = muts.get(last["a"], 0) + 1
-        sk = shape_key(cs["sh0"])
+        sk = full_key(cs["sh0"])
         check_case(ctx, cs, {k[1]: v for k, v in defs.items() if k[0] == sk} if False else _Prefix(defs, sk))
     if len(muts) < 10:
         raise core.MachineryError("vacuous model: mutators seen %s" % muts)
